@@ -2,6 +2,8 @@
 
 package cache
 
+import "github.com/miekg/dns"
+
 // Verification hooks for property C04 (lifetimes). Read-only: nothing here
 // changes behaviour or rewrites state.
 
@@ -39,4 +41,20 @@ func VerifC04Counters() map[string]int64 {
 		"ecs_hit_scoped":     ecsLookupHitScoped.Value(),
 		"ecs_hit_shared":     ecsLookupHitShared.Value(),
 	}
+}
+
+// VerifC04EntryMsg decodes the body an entry stores, whatever lifetime the
+// entry has left (ToMsg declines once it ran out). The C04 concurrent-history
+// monitor uses it to read the provenance marker of an entry a Lookup returned,
+// including one that expires right after. Read-only; nil if e is nil or the
+// stored bytes do not unpack.
+func VerifC04EntryMsg(e *CacheEntry) *dns.Msg {
+	if e == nil {
+		return nil
+	}
+	m := new(dns.Msg)
+	if err := m.Unpack(e.wire); err != nil {
+		return nil
+	}
+	return m
 }
